@@ -484,7 +484,9 @@ class Doc:
             for (subs, rule) in self._clip_child(ch, Mc, depth):
                 parts.append((subs, rule))
                 self.edges.append(subs)
-        own = self.clip_region(cp.get("clip-path"), M, depth + 1) if cp.get("clip-path") else None
+        # a clip-path on the clipPath itself lives in the clipPath's own coordinate system, i.e. including its transform
+        # (the transform attribute of an element also governs that element's clip-path)
+        own = self.clip_region(cp.get("clip-path"), Mc, depth + 1) if cp.get("clip-path") else None
 
         def inside(p):
             if own is not None and not own(p):
